@@ -51,6 +51,14 @@ func truncHalf(v int) int { return 2 * (v / 2) }
 
 // expectedPaths returns the paths x/image should report for glyph i.
 func expectedPaths(set []*mglyph, i int, depth int) ([]xpath, bool) {
+	return expectedPathsStack(set, i, depth, 0)
+}
+
+// expectedPathsStack: x/image keeps the components of all composite glyphs on
+// the path from the glyph being loaded to the current one on a stack of 64
+// entries (maxCompoundStackSize) and reports "unsupported compound glyph"
+// when it is full; stack is the number of entries in use.
+func expectedPathsStack(set []*mglyph, i int, depth int, stack int) ([]xpath, bool) {
 	m := set[i]
 	if m == nil {
 		return nil, true
@@ -74,6 +82,10 @@ func expectedPaths(set []*mglyph, i int, depth int) ([]xpath, bool) {
 		return res, true
 	}
 	var res []xpath
+	stack += len(m.g.Composite.Comps)
+	if stack > 64 {
+		return nil, false
+	}
 	for _, k := range m.g.Composite.Comps {
 		if k.Flags&refglyf.ArgsAreXYValues == 0 || refglyf.NumTransform(k.Flags) != 0 {
 			return nil, false
@@ -81,7 +93,7 @@ func expectedPaths(set []*mglyph, i int, depth int) ([]xpath, bool) {
 		if int(k.Glyph) >= len(set) {
 			return nil, false
 		}
-		sub, ok := expectedPaths(set, int(k.Glyph), depth+1)
+		sub, ok := expectedPathsStack(set, int(k.Glyph), depth+1, stack)
 		if !ok {
 			return nil, false
 		}
